@@ -23,7 +23,7 @@ RULE = ("one run = 1-3 component groups (disjoint, or overlapping but different)
         "non-trivial = at least one request arrived while one of the same group was in flight; distinct = "
         "distinct abstract event sequence (kind, group) of sends/enters/exits")
 EXPECT_PROBES = ["arrival_while_in_flight", "send_at_completion", "sync_completion", "equal_valued_request", "actor_stop_start", "overlapping_groups",
-                 "equal_set_other_iteration_order"]
+                 "equal_set_other_iteration_order", "nine_or_more_groups"]
 QUICK_RUNS = 6000
 THOROUGH_RUNS = 400_000
 
@@ -57,7 +57,10 @@ class ProbeManager:
         st.on_enter(g, idx)
         mode = sim.ch.weighted("dist_mode", [3, 2, 6, 1, 2])
         delay = 0
-        if mode in (2, 4):
+        if idx <= st.slow_first:
+            mode, delay = 2, 3_000_000      # many-groups mode: the first request of every group is slow (all in flight at once)
+            st.planned_done[g] = sim.now_us + delay
+        elif mode in (2, 4):
             delay = sim.ch.choice("dist_delay", DELAYS)
             st.planned_done[g] = sim.now_us + delay
         try:
@@ -85,6 +88,7 @@ class State:
             # as the class documents); each of them still has to obey the property
             self.groups = [frozenset({g + 1, g + 2}) for g in range(ngroups)]
             sim.probe("overlapping_groups")
+        self.slow_first = 0
         self.group_of = {ids: g for g, ids in enumerate(self.groups)}
         self.sent: list[list[int]] = [[] for _ in range(ngroups)]      # indices sent, per group
         self.started: list[list[int]] = [[] for _ in range(ngroups)]
@@ -156,11 +160,17 @@ def scenario(sim: Sim) -> None:
 
     ch = sim.ch
     ngroups = 1 + ch.weighted("ngroups", [3, 2, 1])
-    nreq = ch.int_between("nreq", 5, sim.scale(40, 45))
+    many = ch.chance("many_groups", 0.08)
+    if many:
+        ngroups = ch.int_between("ngroups_many", 9, 14)      # "requests for disjoint groups do not delay each other"
+        sim.probe("nine_or_more_groups")
+    nreq = ch.int_between("nreq", 5, sim.scale(40, 45)) + (ngroups if many else 0)
     cost = ch.weighted("cost_mode", [2, 1, 3])
     sim.set_cost_mode(cost, ch.draw("cost_seed", 1 << 16) if cost == 2 else 0)
     sim.config.update(ngroups=ngroups, nreq=nreq, cost=cost)
     st = State(sim, ngroups)
+    if many:
+        st.slow_first = ngroups
 
     comps, conns = fakes.battery_graph([([g * 10 + 3], [g * 10 + 4]) for g in range(ngroups)])
     api = fakes.FakeMicrogridApi(sim, comps, conns)
@@ -174,7 +184,7 @@ def scenario(sim: Sim) -> None:
             requests_receiver=req_ch.new_receiver(),
             results_sender=res_ch.new_sender(),
             component_pool_status_sender=st_ch.new_sender(),
-            api_power_request_timeout=timedelta(seconds=5),
+            api_power_request_timeout=timedelta(seconds=ch.choice("api_timeout_s", [5.0, 5.0, 0.05, 1.5])),
             component_category=ComponentCategory.BATTERY,
         )
         probe = ProbeManager(sim, st)
@@ -207,13 +217,15 @@ def scenario(sim: Sim) -> None:
                 st.actor_stopped = False
             g = ch.draw("group", ngroups)
             kind = ch.weighted("gap_kind", [4, 3])
+            if many and k <= ngroups:
+                g, kind = k - 1, 0       # first one request per group, in a burst
             if kind == 1 and g in st.planned_done:
                 # aim at the completion of the in-flight distribution: -1, 0, +1 us around it
                 off = ch.draw("around", 3) - 1
                 target = max(t, st.planned_done[g] + off)
                 sim.probe("send_at_completion")
             else:
-                target = t + ch.choice("gap", GAPS)
+                target = t + (ch.choice("burst_gap", [0, 0, 1, 50]) if many and k <= ngroups else ch.choice("gap", GAPS))
             t = target
             if target > sim.now_us:
                 await _until(sim, target)
